@@ -179,3 +179,41 @@ def c05_8(ctx, r):
                     f"the node's try-submit-jobs is additionally guarded by {extra}: the last node may not trigger completion", "whenever all running batches have ended ... one try-submit-jobs ...")
     h = ctx.fn("run_jobs._try_submit_jobs", "C05.8")
     r.check(bool(spawn_sites(ctx, h, "jade try-submit-jobs")), "the helper spawns `jade try-submit-jobs <output>`", key_of(h, "spawn"), h.loc(), "_try_submit_jobs no longer spawns jade try-submit-jobs")
+
+
+@rule(P, "C05.9", "T2", "a round determines which batches are still active before it collects results", min_obligations=2)
+def c05_9(ctx, r):
+    poll_before_collect(ctx, r, "C05.9")
+
+
+def poll_before_collect(ctx, r, rid):
+    """A batch writes its last result before it leaves the scheduler. If results are collected first and
+    the scheduler is polled afterwards, a batch that ends in between is seen as inactive although its
+    last results were not collected: with no active id left the round forces completion and those jobs
+    are reported missing (and the flag is set while jobs have results that were never read)."""
+    run = ctx.fn("HpcSubmitter.run", rid)
+    polls = ctx.nodes_with_effect(run, "POLL")
+    coll = ctx.nodes_with_effect(run, "COLLECT")
+    if not polls:
+        r.bad(key_of(run, "no poll"), run.loc(), "HpcSubmitter.run never polls the scheduler: finished batches stay active for ever", "whenever all running batches have ended ...")
+        return
+    if not coll:
+        r.bad(key_of(run, "no collection"), run.loc(), "HpcSubmitter.run never collects results", "the completion flag is set only when every job has a result")
+        return
+    for c in coll:
+        r.check(dominated_by(ctx, run, c, polls, NORMAL_KINDS), "the scheduler poll dominates the result collection of the round", key_of(run, "results collected before the poll"), run.loc(c.stmt),
+                "results are collected before the scheduler is polled: a batch that finishes between the two is counted inactive although its last results were not collected, so with no active id left "
+                "completion is forced and finished jobs are reported missing (the later try-submit-jobs exits early on the flag and never collects them)",
+                "the completion flag is set only when every job has a result")
+    # the decision reads the ids persisted from the poll of this same round
+    dec = [n for s in ctx.some_sites(run, rid, short="HpcSubmitter._is_complete") for n in ctx.nodes_of(run, s.node)]
+    for d in dec:
+        r.check(all(dominated_by(ctx, run, d, [c], NORMAL_KINDS) for c in coll[:1]) and dominated_by(ctx, run, d, polls, NORMAL_KINDS), "the completion decision follows both", key_of(run, "decision order"), run.loc(d.stmt),
+                "the completion decision is taken before the poll / the collection of this round")
+
+
+@rule(P, "C05.10", "T1+T11", "a job whose blockers have outcomes is unblocked whatever those outcomes are (unless it is canceled)", min_obligations=2)
+def c05_10(ctx, r):
+    from .c04 import c04_6
+
+    c04_6(ctx, r)
